@@ -1,0 +1,14 @@
+//go:build verif
+
+package connection
+
+import (
+	"github.com/onosproject/onos-config/pkg/southbound/gnmi"
+	"github.com/onosproject/onos-config/pkg/store/topo"
+)
+
+func NewReconcilerForVerif(topo topo.Store, conns gnmi.ConnManager) *Reconciler {
+	return &Reconciler{conns: conns, topo: topo}
+}
+func NewConnWatcherForVerif(conns gnmi.ConnManager) *ConnWatcher { return &ConnWatcher{conns: conns} }
+func NewTopoWatcherForVerif(topo topo.Store) *TopoWatcher       { return &TopoWatcher{topo: topo} }
